@@ -495,7 +495,7 @@ def run(ctx, args):
     main_src = (package_source("r", decls, name="main", extra_imports=("encoding/hex", "fmt", "reflect", "strings"), main_extra=mshapes) + ORACLE_MAIN +
                 "\nfunc main() {\n" + calls + "\n\tz15Run()\n}\n")
     e2e.write_module(od, {"p/p.go": package_source("p", []), "q/q.go": package_source("q", []), "main.go": main_src}, modname=tg.MOD)
-    r = e2e.go_run_reference(ctx, od, os.path.join(od, "ref.bin"))
+    r = e2e.go_run_reference(ctx, od, os.path.join(od, "ref.bin"), timeout=5400)   # thorough tier: ~30000 generated types take the Go compiler well over 10 minutes
     if r.returncode != 0:
         raise RuntimeError("oracle program does not build (generator bug): " + (r.stdout + r.stderr)[-3000:])
     oo, oe, orc = e2e.run_prog(os.path.join(od, "ref.bin"), timeout=300)
